@@ -11,7 +11,8 @@ Case lines:
   gather|allgather|alltoall T count srchex rlen          gatherv|allgatherv T count displ srchex rlen
   reduce|allreduce|reduce_scatter_block|scan|exscan OP T count srchex rlen      bcast T count bufhex     barrier
   pack T incount outsize position inhex     unpack T outcount position inhex olen     packsize T n   typesize T   sizeof T
-  comm color key    group    wait|waitall|testall|waitsome n withstatus    wtime    errclass NAME idx    errstring NAME"""
+  comm color key    group    wait|waitall|testall|waitsome n withstatus    wtime    errclass NAME idx    errstring NAME
+  errtext NAME idx (text and length stored)    errclassx|errtextx CODE (a number that is none of the 21 codes; serial build only)"""
 import os, sys, json
 import vlib
 sys.path.insert(0, os.path.join(vlib.TOOLS, "c2g"))
@@ -147,6 +148,26 @@ def expected(line, impl):
         return ["0", "same"], False
     if c == "errstring":
         return ["0", "text"], False
+    if c == "errtext":
+        # success, a non-empty text without NUL, *resultlen = its length (below sc_MPI_MAX_ERROR_STRING); the wording is the library's own
+        def ok_text(g):
+            if len(g) != 3:
+                return ["expected 3 fields"]
+            bad = []
+            if g[0] != "0":
+                bad.append("return code is not sc_MPI_SUCCESS")
+            txt = hexbytes(g[2])
+            if not txt or "00" in txt:
+                bad.append("no text stored")
+            if not g[1].isdigit() or int(g[1]) != len(txt):
+                bad.append("*resultlen is %s, the stored text has %d characters" % (g[1], len(txt)))
+            return bad
+        return ok_text, False
+    if c in ("errclassx", "errtextx"):
+        # a number that is none of the codes of sc_mpi.h: "other MPI error code" is returned (serial build only)
+        if impl == "mpi":
+            return [None], False
+        return (["E", None] if c == "errclassx" else ["E", None, None]), False
     if c == "init":
         return ["init", "0", "set"], False
     if c == "finalize":
@@ -169,6 +190,8 @@ def judge(line, out, impl):
     if "REQCHANGED" in g:
         bad.append("a null request was modified")
         g = [x for x in g if x != "REQCHANGED"]
+    if callable(exp):
+        return bad + exp(g), known
     if len(g) != len(exp):
         return bad + ["expected %d fields, got `%s`" % (len(exp), out[:200])], known
     for j, (e, x) in enumerate(zip(exp, g)):
@@ -247,6 +270,10 @@ def gen_cases(ctx):
     for i, nme in enumerate(ERRNAMES):
         cases.append("errclass %s %d" % (nme, i))
         cases.append("errstring %s" % nme)
+        cases.append("errtext %s %d" % (nme, i))
+    for code in (-1, 1, 13999, 14001, 14021, 14022, 2 ** 31 - 1, -2 ** 31) + tuple(rng.randrange(-2 ** 31, 2 ** 31) for _ in range(6)):
+        cases.append("errclassx %d" % code)
+        cases.append("errtextx %d" % code)
     return cases
 
 
